@@ -34,6 +34,7 @@ package sn2core
 //@   props C20
 //@   arith int
 //@   nosafe
+//@   coretypes
 //@   requires current != nil && delta != nil && current.Block != nil && current.Block.Header != nil && current.StateUpdate != nil
 //@   assigns calls_DiffMerge, arg_DiffMerge_d, arg_DiffMerge_incoming, calls_BloomMerge, arg_BloomMerge_f, arg_BloomMerge_g
 //@   callsite StateDiff.Merge@*: into_maps_of_its_own: $0 != nil && fresh($0) && fresh($0.StorageDiffs) && fresh($0.Nonces) && fresh($0.DeployedContracts) && fresh($0.DeclaredV1Classes) && fresh($0.ReplacedClasses) && fresh($0.MigratedClasses)
